@@ -934,7 +934,7 @@ func (ft *ftrans) drainLoop(s *ast.RangeStmt, e env, k cont) node {
 	}
 	b, field, m := ft.mapField(s.X, e)
 	ft.rebinds(lhsBaseObj(s.X))
-	return nLet{name: b.lean, val: "{ " + b.lean + " with " + field + " := Gen.Rt.Map.clear " + atom(m.s) + " }", body: k(e)}
+	return nLet{name: b.lean, val: "{ " + b.lean + " with " + lf(field) + " := Gen.Rt.Map.clear " + atom(m.s) + " }", body: k(e)}
 }
 
 func lhsBaseObj(x ast.Expr) *ast.Object {
